@@ -188,11 +188,25 @@ def run(ctx):
             except Exception as ex:
                 r = []
             cases.append({"id": "r%d" % len(cases), "v": b["v"], "r": r})
-    corrupt = dict(cases[-1], r=[0] * len(cases[-1]["v"]))
-    rej = ctx.trace("Trace_Rank", cases, selftest=[(corrupt, "rank-permutation")])
+    # value vectors of other sizes and element types (the ranks 0..n-1 need not fit the element type)
+    import random
+    rng = random.Random(ctx.seed + 17)
+    for n in (5, 40, 300):
+        for dt in ("float64", "float32", "float16", "int64", "int32", "int16", "int8", "uint8", "bool"):
+            hi = {"int8": 100, "uint8": 200, "bool": 1, "float16": 60}.get(dt, 1000)
+            vals = [rng.randint(0, hi) for _ in range(n)]
+            arr = np.array(vals).astype(dt)
+            try:
+                r = [int(x) for x in np.asarray(kr.rank(arr)).tolist()]
+            except Exception:
+                r = []
+            cases.append({"id": "r%d" % len(cases), "v": [int(x) for x in arr.astype(float).tolist()], "r": r, "dtype": dt})
+    corrupt = dict(cases[0], r=[0] * len(cases[0]["v"]))
+    rej = ctx.trace("Trace_Rank", [{k: c[k] for k in ("id", "v", "r")} for c in cases], selftest=[(corrupt, "rank-permutation")])
     byid = {c["id"]: c for c in cases}
     for cid, vs in rej.items():
-        ctx.violation("rank-permutation", {"kind": "T", "v": byid[cid]["v"]}, {"verdict": vs[0]})
+        ctx.violation("rank-permutation", {"kind": "T", "v": byid[cid]["v"], "dtype": byid[cid].get("dtype", "float64")},
+                      {"verdict": [str(x)[:200] for x in vs[0]], "dtype": byid[cid].get("dtype", "float64")})
     for c in cases:
         ctx.count(("T", c["v"]), True)
 
@@ -204,7 +218,7 @@ def replay(ctx, obj):
             ctx.violation(clause, case, detail)
     else:
         import kneeliverse.knee_ranking as kr
-        r = [int(x) for x in kr.rank(np.array(case["v"], float)).tolist()]
+        r = [int(x) for x in kr.rank(np.array(case["v"]).astype(case.get("dtype", "float64"))).tolist()]
         rej = ctx.trace("Trace_Rank", [{"id": "r0", "v": case["v"], "r": r}])
         for cid, vs in rej.items():
             ctx.violation("rank-permutation", case, {"verdict": vs[0]})
